@@ -344,6 +344,18 @@ fn oracle(log: &[Obs], cup: bool, stored_poll: Option<u64>, bad_url: bool) -> V 
             "",
         );
     }
+    // the response time of an attempt covers that attempt only: in this environment exchanges take no
+    // time and the clock moves only when it is read, so every attempt of a check measures the same
+    // few reads; a later attempt whose time also spans the earlier attempts and back-off waits is off
+    let rt_d: Vec<Duration> = log.iter().filter_map(|o| if let Obs::Metric(MetricView::ResponseTime { d, .. }) = o { Some(*d) } else { None }).collect();
+    for (k, d) in rt_d.iter().enumerate().skip(1) {
+        if *d > rt_d[0] + Duration::from_millis(1500) {
+            return bad(
+                format!("response time of attempt {} also covers earlier attempts", k + 1),
+                format!("response times {rt_d:?}"),
+            );
+        }
+    }
     let rpc: Vec<(u64, bool)> = log
         .iter()
         .filter_map(|o| if let Obs::Metric(MetricView::RequestsPerCheck { count, ok }) = o { Some((*count, *ok)) } else { None })
